@@ -57,6 +57,7 @@ def has_norepr(prog):
 
 
 def execute(case, ctx):
+    ctx.persistent = True  # plugin sessions of this history share one directory incl. __pycache__ (logical clock for mtimes, see sim.sync_tree)
     prog = case["program"]
     out = {"violations": [], "discards": {}, "abstract": []}
 
